@@ -156,6 +156,7 @@ Definition run_cmd (m : ovf_mode) (cmd : tok) (args : list tok) : list byte :=
   else if tok_is cmd "ID" then run_id args
   else if tok_is cmd "IDPAIR" then run_idpair args
   else if tok_is cmd "IDREF" then run_idref args
+  else if tok_is cmd "SRREF" then run_srref args
   else if tok_is cmd "FAULT" then run_fault args
   else if tok_is cmd "FFI" then run_ffi m args
   else if tok_is cmd "FFIP" then run_ffi_pinned m args
@@ -176,12 +177,31 @@ Definition run_cmd (m : ovf_mode) (cmd : tok) (args : list tok) : list byte :=
   else if tok_is cmd "EIDCBOR" then run_eidcbor args
   else bad_case.
 
+(* PAIR <cmd> <args> || <cmd> <args> [|| ..]: several commands on one line, executed one after the other by the same thread of the
+   implementation (state that survives between calls - caches, thread-locals, statics - is then shared); the model is stateless, so its
+   answer is simply the answers of the parts *)
+Fixpoint split_bars (ts : list tok) (cur : list tok) : list (list tok) :=
+  match ts with
+  | [] => [rev_append cur []]
+  | t :: ts' => if tok_is t "||" then rev_append cur [] :: split_bars ts' [] else split_bars ts' (t :: cur)
+  end.
+Fixpoint join_bars (outs : list (list byte)) : list byte :=
+  match outs with
+  | [] => []
+  | [o] => o
+  | o :: rest => join [o; S_ "||"; join_bars rest]
+  end.
+Definition run_seg (m : ovf_mode) (seg : list tok) : list byte :=
+  match seg with c :: a => run_cmd m c a | [] => bad_case end.
+Definition run_cmds (m : ovf_mode) (cmd : tok) (args : list tok) : list byte :=
+  if tok_is cmd "PAIR" then join_bars (map (run_seg m) (split_bars args [])) else run_cmd m cmd args.
+
 (* an optional first token D / R selects the overflow mode of the build the line is compared with *)
 Definition run_line (line : list byte) : list byte :=
   match tokens line with
   | [] => bad_case
   | cmd :: args =>
-      if tok_is cmd "D" then match args with c :: a => run_cmd Checked c a | [] => bad_case end
-      else if tok_is cmd "R" then match args with c :: a => run_cmd Wrapping c a | [] => bad_case end
-      else run_cmd Checked cmd args
+      if tok_is cmd "D" then match args with c :: a => run_cmds Checked c a | [] => bad_case end
+      else if tok_is cmd "R" then match args with c :: a => run_cmds Wrapping c a | [] => bad_case end
+      else run_cmds Checked cmd args
   end.
